@@ -133,6 +133,12 @@ def handleLd (st : State) : List String → Option (State × String)
     let r ← r.toNat?.bind stOfNat
     let (st', out) := step st (.recv ifid r)
     some (st', renderOut out)
+  | ["recvd", ifid, r, yd] => do
+    let ifid ← ifid.toNat?
+    let r ← r.toNat?.bind stOfNat
+    let yd ← yd.toNat?
+    let (st', out) := step st (.recvDisc ifid r yd)
+    some (st', renderOut out)
   | ["recvt", ifid, r] => do
     let ifid ← ifid.toNat?
     let r ← r.toNat?.bind stOfNat
